@@ -427,6 +427,26 @@ class G:
                 return "(Type.%s %s %s)" % (t, self.pick(["==", "!="]), self.pick(["'b.txt'", "'example.com'", "'x'", "None"]))
             self.use("Type:==")
             return "(Type.stringlist == %s)" % self.strlist(d + 1, env)
+        if k == "gen" and self.i(0, 4) == 0:
+            # a field-type CONSTRUCTOR applied to the loop variable: its value differs per element (and the elements
+            # come in an order of their own), so it is built anew every time round
+            fn = self.pick(["any", "all"])
+            self.use("gen:" + fn)
+            self.use("ctor-on-loop-variable")
+            v = self.newvar(env)
+            form = self.pick(["ip-eq", "ip-in-net", "ip-ne"])  # (bare constructor names are a listed finding of the compiled engine)
+            if form == "str-eq":
+                items = [repr(w) for w in WORDS]
+                body = "(string(%s) %s %s)" % (v, self.pick(["==", "!="]), self.pick(["r.s", "r.s2", self.strlit()]))
+            elif form == "ip-in-net":
+                items = ["'10.1.0.0/16'", "'10.0.0.0/8'", "'2001:db8::/32'", "'192.168.0.0/16'", "'::/0'"]
+                body = "(r.ip %s net.ipnetwork(%s))" % (self.pick(["in", "not in"]), v)
+            else:
+                items = ["'10.0.0.1'", "'10.1.2.3'", "'::1'", "'2001:db8::1'", "'192.168.1.1'"]
+                body = "(net.ipaddress(%s) %s r.ip)" % (v, "==" if form == "ip-eq" else "!=")
+            k0 = self.i(0, len(items) - 1)
+            items = (items[k0:] + items[:k0])[: self.i(2, len(items))]
+            return "%s(%s for %s in [%s])" % (fn, body, v, ", ".join(items))
         if k == "gen":
             fn = self.pick(["any", "all"])
             self.use("gen:" + fn)
